@@ -30,7 +30,7 @@ LEVEL_NOTE = "trusted: sha256, the model map, ast-based reference extraction; ha
 RULE = ("one run = history over a project with 1-3 test files whose tests compare outsource(data, suffix) (str / bytes, equal bytes under several "
         "suffixes, shared by several tests, bare and inside lists / dicts) with == snapshots; distinct = abstract histories (step kinds, flags, "
         "participation pattern, hash-length); non-trivial = at least one external persisted and one later step")
-RULE += " Dimensions added while testing against seeded changes: data outsourced at import time by a module-level constant; suffixes with digits, capitals and a bare dot; sessions started outside the project directory; history step: the external import is moved below a statement, then a trim session."
+RULE += " Dimensions added while testing against seeded changes: data outsourced at import time by a module-level constant; suffixes with digits, capitals and a bare dot; sessions started outside the project directory; history step: the external import is moved below a statement, then a trim session; inactive sessions (disable, CI variables) in the histories."
 ASSUMPTIONS = ["real plugin sessions only", "S5 is probed through external(name)._load_value() in a forked process on a copy of the tree"]
 REAL_VS_STUB = {
     "real": ["pytest", "inline_snapshot plugin + library from /repo/src (DiscStorage, outsource, persist, prune, trim)", "tmpfs storage directory"],
